@@ -109,7 +109,7 @@ ChkFlush == Focus \in {"ALL", "C15"}
 ChkUtf8 == Focus \in {"ALL", "C02"}
 ChkFresh == Focus \in {"ALL", "C01"}
 ChkRes == Focus \in {"ALL", "C14"}
-ChkInv == Focus \in {"ALL", "C03", "C05", "C10"}
+ChkInv == Focus \in {"ALL", "C03", "C05", "C10", "C14"}
 
 Match(out, k, r, post) ==
     /\ CmpLine(k) => (post.line = out.st.line /\ r.st.cur = out.st.cur)
@@ -121,9 +121,9 @@ Match(out, k, r, post) ==
 (* key would have left it, or cleared; history, prompt and the handler call  *)
 (* are on either side of the call; nothing else.                             *)
 FailMatch(out, r, pre, post) ==
-    /\ \/ (post.line = pre.line /\ post.cur = pre.cur)
-       \/ (post.line = out.st.line /\ post.cur = out.st.cur)
-       \/ (post.line = <<>> /\ post.cur = 0)
+    /\ \/ (post.line = pre.line /\ r.st.cur = pre.cur)
+       \/ (post.line = out.st.line /\ r.st.cur = out.st.cur)
+       \/ (post.line = <<>> /\ r.st.cur = 0)
     /\ \/ (post.hist = pre.hist /\ post.nav = pre.nav)
        \/ (post.hist = out.st.hist /\ post.nav = out.st.nav)
     /\ post.prompt \in {pre.prompt, out.st.prompt}
